@@ -201,12 +201,12 @@ theorem every_channel_inv {s : State} (h : NReachable s) {t : Topic} (ht : t ∈
 the topic's queue (memory or disk) and recorded as acknowledged, whatever the topic's state
 (paused, without channels, memory queue full). (In the code: `okBytes` is returned only after a
 successful `PutMessage` — regenerated facts `Tie.Chan.pubAck_eq`, `dpubAck_eq`, `mpubAck_eq`.) -/
-theorem ack_implies_enqueued (s : State) (t sz d : Nat) :
-    (Nsq.Model.ChanNsqd.step s (.pub t sz)).2 = .ids [s.nextId] ∧
-    (∃ tp ∈ (Nsq.Model.ChanNsqd.step s (.pub t sz)).1.topics, tp.tid = t ∧
+theorem ack_implies_enqueued (s : State) (t sz d : Nat) (env : Env) :
+    (Nsq.Model.ChanNsqd.step s (.pub t sz env)).2 = .ids [s.nextId] ∧
+    (∃ tp ∈ (Nsq.Model.ChanNsqd.step s (.pub t sz env)).1.topics, tp.tid = t ∧
         s.nextId ∈ tp.queue.map (·.id) ∧ s.nextId ∈ tp.acked) ∧
-    (Nsq.Model.ChanNsqd.step s (.dpub t sz d)).2 = .ids [s.nextId] ∧
-    (∃ tp ∈ (Nsq.Model.ChanNsqd.step s (.dpub t sz d)).1.topics, tp.tid = t ∧
+    (Nsq.Model.ChanNsqd.step s (.dpub t sz d env)).2 = .ids [s.nextId] ∧
+    (∃ tp ∈ (Nsq.Model.ChanNsqd.step s (.dpub t sz d env)).1.topics, tp.tid = t ∧
         s.nextId ∈ tp.queue.map (·.id) ∧ s.nextId ∈ tp.acked) := by
   obtain ⟨y, hy, hyt⟩ := ensureTopic_has s t
   have hn := (ensureTopic_nextId s t).1
@@ -219,16 +219,16 @@ theorem ack_implies_enqueued (s : State) (t sz d : Nat) :
     simp [hyt, putT, hn]
 
 /-- MPUB: every message of an acknowledged multi-publish is in the topic queue -/
-theorem ack_implies_enqueued_mpub (s : State) (t : Nat) (sizes : List Nat) :
-    (Nsq.Model.ChanNsqd.step s (.mpub t sizes)).2 = .ids (idsFrom s.nextId sizes.length) ∧
-    ∃ tp ∈ (Nsq.Model.ChanNsqd.step s (.mpub t sizes)).1.topics, tp.tid = t ∧
+theorem ack_implies_enqueued_mpub (s : State) (t : Nat) (sizes : List Nat) (envs : List Env) :
+    (Nsq.Model.ChanNsqd.step s (.mpub t sizes envs)).2 = .ids (idsFrom s.nextId sizes.length) ∧
+    ∃ tp ∈ (Nsq.Model.ChanNsqd.step s (.mpub t sizes envs)).1.topics, tp.tid = t ∧
       ∀ i ∈ idsFrom s.nextId sizes.length, i ∈ tp.queue.map (·.id) ∧ i ∈ tp.acked := by
   obtain ⟨y, hy, hyt⟩ := ensureTopic_has s t
   have hn := (ensureTopic_nextId s t).1
   refine ⟨by simp [Nsq.Model.ChanNsqd.step, hn], ?_⟩
   simp only [Nsq.Model.ChanNsqd.step]
   refine ⟨_, mem_updT.2 ⟨y, hy, rfl⟩, ?_⟩
-  obtain ⟨q, hq1, hq2⟩ := putMany_spec y (ensureTopic s t).nextId sizes
+  obtain ⟨q, el, hq1, hq2, _⟩ := putMany_spec y (ensureTopic s t).nextId sizes envs
   rw [hn] at hq1 hq2
   simp only [hyt, ↓reduceIte, hn, hq1, hq2]
   refine ⟨trivial, ?_⟩
